@@ -1,6 +1,7 @@
 package gen
 
 import (
+	"bytes"
 	stded "crypto/ed25519"
 	"crypto/sha256"
 	"fmt"
@@ -220,11 +221,17 @@ func OptPublicKey() *rapid.Generator[crypto.PublicKey] {
 	})
 }
 
-// Address draws a 20-byte address: the address of a pool/random key (2 in 3) or 20 arbitrary bytes.
+// Address draws a 20-byte address: the address of a pool/random key (most often), 20 arbitrary bytes, or the all-zero /
+// all-0xFF address.
 func Address() *rapid.Generator[sdk.Address] {
 	return rapid.Custom(func(t *rapid.T) sdk.Address {
-		if rapid.IntRange(0, 2).Draw(t, "rawAddr") == 0 {
+		switch rapid.SampledFrom([]int{0, 0, 0, 0, 1, 1, 1, 1, 1, 1, 1, 1, 2, 3}).Draw(t, "rawAddr") {
+		case 0:
 			return sdk.Address(rapid.SliceOfN(rapid.Byte(), 20, 20).Draw(t, "addr"))
+		case 2:
+			return sdk.Address(make([]byte, 20)) // twenty zero bytes: a legal address, not an empty one
+		case 3:
+			return sdk.Address(bytes.Repeat([]byte{0xff}, 20))
 		}
 		return Ed25519Key().Draw(t, "addrKey").Addr
 	})
